@@ -39,6 +39,7 @@ void termination_lp_init(struct lp_ctx *lp)
 	bool term = global_config.committed(lp - lps, lp->state_pointer);
 	lps_to_end += !term;
 	lp->termination_t = term * SIMTIME_MAX;
+	VERIF_TRACE(VK_TERM_INIT, lp - lps, term, lps_to_end);
 }
 
 /**
@@ -54,6 +55,7 @@ void termination_on_msg_process(struct lp_ctx *lp, simtime_t msg_time)
 	max_t = term ? max(msg_time, max_t) : max_t;
 	lp->termination_t = term * msg_time;
 	lps_to_end -= term;
+	VERIF_TRACE(VK_TERM_PROCESS, lp - lps, verif_dbits(lp->termination_t), lps_to_end);
 }
 
 /**
@@ -107,4 +109,5 @@ void termination_on_lp_rollback(struct lp_ctx *lp, simtime_t msg_time)
 	bool keep = old_t < msg_time || old_t == SIMTIME_MAX;
 	lp->termination_t = keep * old_t;
 	lps_to_end += !keep;
+	VERIF_TRACE(VK_TERM_ROLLBACK, lp - lps, verif_dbits(old_t), keep);
 }
